@@ -137,6 +137,7 @@ bool Solver::satisfy() {
             bs->mergeLeft(v->block);
         }
     }
+    delete vList;
     bs->cleanup();
     bool activeConstraints=false;
     for(unsigned i=0;i<m;i++) {
@@ -150,7 +151,6 @@ bool Solver::satisfy() {
             throw UnsatisfiedConstraint(*cs[i]);
         }
     }
-    delete vList;
     copyResult();
     return activeConstraints;
 }
